@@ -43,6 +43,8 @@ def check_case(case, common, out, collect=None):
     if not hasattr(q, "expr"):
         bump(out, "C01.stage:den(optimize_until(e,stage))~den(e)", None, rule=STAGE_RULE, n=0)
         return
+    if prog.undefined:
+        return  # result not defined by the documented semantics (see corpus.Prog.undefined)
     expr = q.expr
     D.clear_cache()
     if rc:
